@@ -274,6 +274,28 @@ def rule_MP5(rep, prog, q):
         pushes = icalls_slot(prog, fn, "dq_push")
         rep.require(rid, bool(pushes), fn.file, name, "inner-queue-no-push:%s" % name, "%s must push the waiter to the target queue for inner queues" % name,
                     sample={"pushes": len(pushes)})
+        if name == "_dispatch_non_barrier_waiter_redirect_or_wake":
+            # the lock kind for the next level is chosen from the NEXT level's width (the target), and a reader slot is only ever reserved on a level
+            # that this test found concurrent
+            wts = []
+            for i in fn.all_insts():
+                if i.op == "br" and i.ops:
+                    w = width1_test_of(prog, fn, i.ops[0])
+                    if w:
+                        wts.append(w)
+            rsv = calls_named(fn, "_dispatch_queue_try_reserve_sync_width")
+            def is_target(root):
+                l = fn.inst(root) if root[0] == "i" else None
+                return l is not None and l.op == "load" and "do_targetq" in prog.fields(l)
+            ok = bool(wts) and all(is_target(root) for pol, root, ic in wts)
+            for r in rsv:
+                cx = paths.dom_ctx(fn, r)
+                lvl = root_ptr(fn, r.ops[0])
+                ok = ok and any(root == lvl and cx.truth.get(ic.id) == (not pol) for pol, root, ic in wts)
+            rep.require(rid, ok and bool(rsv), fn.file, name, "next-level-kind-from-wrong-queue",
+                        "%s decides whether the next level down is serial from a dq_width that is not the target's (or reserves a reader slot on a level it did not "
+                        "find concurrent): with a concurrent queue on a serial target several parked dispatch_sync callers are released at once holding only a "
+                        "reader slot of the serial queue" % name, sample={"width_tests": len(wts), "reservations": len(rsv)})
 
 
 def rule_TB6(rep, prog, q):
